@@ -242,83 +242,7 @@ func runC18(c *Ctx) {
 
 	// ---- R18d
 	if fi := c.Func("R18d", pLint, "DevLoader", "nextStmts"); fi != nil {
-		info := fi.Info()
-		f := newFlow(info, fi.Decl.Body)
-		isExec := func(n ast.Node) bool { return nodeHasCall(info, n, c.viaHelpers(dbExec, 2)) != nil }
-		isInspect := f.callNode(isCallTo(pLint, "DevLoader", "inspect"))
-		isDiff := func(n ast.Node) bool {
-			call := nodeHasCall(info, n, func(fn *types.Func, _ *ast.CallExpr) bool { return fn.Name() == "RealmDiff" })
-			if call == nil {
-				return false
-			}
-			// inside the loop: not the final Sum diff
-			return enclosingLoopOf(fi, n) != nil
-		}
-		isAppend := func(n ast.Node) bool {
-			as, ok := n.(*ast.AssignStmt)
-			if !ok || len(as.Lhs) != 1 || !isField(info, as.Lhs[0], pSqlcheck, "File", "Changes") {
-				return false
-			}
-			return true
-		}
-		chain := []struct {
-			name string
-			p    nodePred
-		}{{"ExecContext", isExec}, {"inspect", isInspect}, {"RealmDiff", isDiff}, {"append Change", isAppend}}
-		for i := 0; i+1 < len(chain); i++ {
-			a, b := chain[i], chain[i+1]
-			n, ok := f.mustPrecede(a.p, b.p)
-			c.Check("R18d", "nextStmts|"+a.name+" ≺ "+b.name, nodePos(n, fi.Decl.Pos()), ok && len(f.find(b.p)) > 0, "%s can happen before %s in the per-statement loop", b.name, a.name)
-		}
-		// the Change carries this statement and the diff is between the previous and the new state
-		stmtOK, diffOK, advOK := false, false, false
-		ast.Inspect(fi.Decl.Body, func(m ast.Node) bool {
-			rs, ok := m.(*ast.RangeStmt)
-			if !ok {
-				return true
-			}
-			sv, _ := rs.Value.(*ast.Ident)
-			var nextObj, curObj types.Object
-			ast.Inspect(rs.Body, func(k ast.Node) bool {
-				switch x := k.(type) {
-				case *ast.KeyValueExpr:
-					if id, ok := x.Key.(*ast.Ident); ok && id.Name == "Stmt" {
-						if v, ok := x.Value.(*ast.Ident); ok && sv != nil && info.ObjectOf(v) == info.ObjectOf(sv) {
-							stmtOK = true
-						}
-					}
-				case *ast.AssignStmt:
-					if len(x.Rhs) == 1 {
-						if call, ok := x.Rhs[0].(*ast.CallExpr); ok {
-							if fn := calleeOf(info, call); fn != nil {
-								if funcIs(fn, pLint, "DevLoader", "inspect") {
-									if id, ok := x.Lhs[0].(*ast.Ident); ok {
-										nextObj = info.ObjectOf(id)
-									}
-								}
-								if fn.Name() == "RealmDiff" && len(call.Args) == 2 {
-									a, ok1 := call.Args[0].(*ast.Ident)
-									b, ok2 := call.Args[1].(*ast.Ident)
-									if ok1 && ok2 && nextObj != nil && info.ObjectOf(b) == nextObj && info.ObjectOf(a) != nextObj {
-										diffOK = true
-										curObj = info.ObjectOf(a)
-									}
-								}
-							}
-						}
-						if l, ok := x.Lhs[0].(*ast.Ident); ok && curObj != nil && info.ObjectOf(l) == curObj {
-							if r, ok := x.Rhs[0].(*ast.Ident); ok && info.ObjectOf(r) == nextObj {
-								advOK = true
-							}
-						}
-					}
-				}
-				return true
-			})
-			return true
-		})
-		c.Check("R18d", "nextStmts|change carries its own statement", fi.Decl.Pos(), stmtOK, "the Change recorded for a statement must carry that statement (Stmt: s): diagnostics are positioned through it")
-		c.Check("R18d", "nextStmts|diff(state before, state after) and state advanced", fi.Decl.Pos(), diffOK && advOK, "each statement's changes must be RealmDiff(current, next) followed by current = next (diff=%v advance=%v)", diffOK, advOK)
+		checkPerStatementStep(c, fi)
 	}
 	if fi := c.Func("R18d", pLint, "DevLoader", "LoadChanges"); fi != nil {
 		info := fi.Info()
